@@ -106,3 +106,66 @@ package token
 //@   noframe
 //@   safe
 //@   property C23
+
+// ---- position lookup: which file a Pos belongs to
+// fs_ok(s): the files of a set are non-nil and occupy increasing, disjoint Pos ranges [base, base+size]
+// below s.base, the next base to hand out (what addFile maintains); the lookup cache is nil or one of the files.
+//@ spec fs_ok(s *FileSet) bool := s != nil &&
+//@      (forall i int :: 0 <= i && i < len(s.files) ==> s.files[i] != nil && allocated(s.files[i]) && s.files[i].size >= 0 && s.files[i].base >= 1 && s.files[i].base + s.files[i].size < s.base) && s.base >= 1 && s.base < (1 << 62) &&
+//@      (forall i int, j int :: 0 <= i && i < j && j < len(s.files) ==> s.files[i].base + s.files[i].size < s.files[j].base) &&
+//@      (s.last == nil || (exists k int :: 0 <= k && k < len(s.files) && s.files[k] == s.last))
+
+//@ extern (*sync.RWMutex).RLock
+//@   trusted
+//@ extern (*sync.RWMutex).RUnlock
+//@   trusted
+//@ extern (*sync.RWMutex).Lock
+//@   trusted
+//@ extern (*sync.RWMutex).Unlock
+//@   trusted
+
+// searchFiles: binary search (sort.Search, assumed) for the last file whose base is <= x
+//@ func searchFiles
+//@   mode int
+//@   requires forall i int :: 0 <= i && i < len(a) ==> a[i] != nil
+//@   requires forall i int, j int :: 0 <= i && i < j && j < len(a) ==> a[i].base < a[j].base
+//@   ensures -1 <= result && result < len(a)
+//@   ensures forall i int :: 0 <= i && i <= result ==> a[i].base <= x
+//@   ensures forall i int :: result < i && i < len(a) ==> a[i].base > x
+//@   pure
+//@   trusted
+
+// file: the file of the set whose range contains p, nil when there is none; the cache stays a member
+//@ func (*FileSet).file
+//@   mode int
+//@   requires fs_ok(s)
+//@   ensures[contains] result != nil ==> result.base <= int(p) && int(p) <= result.base + result.size
+//@   ensures[member]   result != nil ==> (exists k int :: 0 <= k && k < len(s.files) && s.files[k] == result)
+//@   ensures[complete] forall k int :: 0 <= k && k < len(s.files) && s.files[k].base <= int(p) && int(p) <= s.files[k].base + s.files[k].size ==> result == s.files[k]
+//@   ensures[rep]      fs_ok(s)
+//@   modifies s.last
+//@   safe
+//@   property C23
+
+// File / PositionFor: NoPos and positions outside every file give no file / the zero Position
+//@ func (*FileSet).File
+//@   mode int
+//@   requires fs_ok(s)
+//@   ensures[nopos]    p == 0 ==> f == nil
+//@   ensures[contains] f != nil ==> f.base <= int(p) && int(p) <= f.base + f.size
+//@   ensures[complete] p != 0 ==> (forall k int :: 0 <= k && k < len(s.files) && s.files[k].base <= int(p) && int(p) <= s.files[k].base + s.files[k].size ==> f == s.files[k])
+//@   modifies s.last
+//@   safe
+//@   property C23
+
+// addFile: the new file gets a range behind every existing one, and the next base lies behind its end
+// (sizes far below the 2^63 wrap-around that the function's own overflow test guards against)
+//@ func (*FileSet).addFile
+//@   mode int
+//@   requires fs_ok(s) && base < (1 << 60) && size < (1 << 60) && cap < (1 << 60) && s.base < (1 << 60)
+//@   ensures[rep]  fs_ok(s)
+//@   ensures[new]  result != nil && len(s.files) == old(len(s.files)) + 1 && s.files[len(s.files)-1] == result && s.last == result
+//@   ensures[range] result.size == size && result.base >= old(s.base) && (base >= 0 ==> result.base == base) && s.base > result.base + result.size
+//@   ensures[keep] forall i int :: 0 <= i && i < old(len(s.files)) ==> s.files[i] == old(s.files[i])
+//@   noframe
+//@   property C23
